@@ -5,6 +5,7 @@ import (
 	"math"
 	"net/http"
 	"net/url"
+	"strings"
 )
 
 // ---- C10: rollout split ----
@@ -22,11 +23,17 @@ var errVNoCookie = errors.New("http: named cookie not present")
 //
 //verif:stub (*net/http.Request).Cookie
 func stubRequestCookie(r *http.Request, name string) (*http.Cookie, error) {
-	c := vCookies[r]
-	if !c.has || name != RolloutCookieName {
+	// the model reads the one Cookie header line the harness wrote ("kamal-rollout=<value>"); requests derived with
+	// WithContext share the header map
+	hs := r.Header["Cookie"]
+	if len(hs) == 0 || name != RolloutCookieName {
 		return nil, errVNoCookie
 	}
-	return &http.Cookie{Name: name, Value: c.value}, nil
+	prefix := RolloutCookieName + "="
+	if !strings.HasPrefix(hs[0], prefix) {
+		return nil, errVNoCookie
+	}
+	return &http.Cookie{Name: name, Value: strings.TrimPrefix(hs[0], prefix)}, nil
 }
 
 // vCookieValueOK: the octets net/http accepts verbatim in a cookie value (so that the native replay,
